@@ -1301,20 +1301,24 @@ impl ApiEndpointVersions {
                 ApiEndpointVersions::From(earliest),
             ) => u.matches(Some(&earliest)),
 
+            // A `From` range and a `FromUntil` range overlap exactly when the
+            // later of the two starting points lies within the bounded range.
+            // (Note that a `FromUntil` whose endpoints are equal contains
+            // exactly that one version.)
             (
                 ApiEndpointVersions::From(earliest),
-                ApiEndpointVersions::FromUntil(OrderedVersionPair {
-                    earliest: _,
-                    until,
+                r @ ApiEndpointVersions::FromUntil(OrderedVersionPair {
+                    earliest: r_earliest,
+                    until: _,
                 }),
-            ) => earliest < until,
+            ) => r.matches(Some(earliest.max(r_earliest))),
             (
-                ApiEndpointVersions::FromUntil(OrderedVersionPair {
-                    earliest: _,
-                    until,
+                r @ ApiEndpointVersions::FromUntil(OrderedVersionPair {
+                    earliest: r_earliest,
+                    until: _,
                 }),
                 ApiEndpointVersions::From(earliest),
-            ) => earliest < until,
+            ) => r.matches(Some(earliest.max(r_earliest))),
 
             (
                 u @ ApiEndpointVersions::Until(_),
